@@ -2,6 +2,7 @@ package main
 
 import (
 	"fmt"
+	"go/constant"
 	"go/token"
 	"strings"
 
@@ -21,6 +22,129 @@ type urlProcTables struct {
 	PctTags     []string // tags on the path that copies '%' in norm mode
 	ShapeOK     bool
 	ShapeDetail string
+	// ModeIdx: index of the mode parameter; ModeEscape / ModeNorm: the constants QueryEscapeURL / NormalizeURL pass
+	ModeIdx    int
+	StrIdx     int
+	ModeEscape *ssa.Const
+	ModeNorm   *ssa.Const
+}
+
+// modeArgOf: the constant mode with which wrapper (QueryEscapeURL, NormalizeURL) calls the processor.
+func modeArgOf(p *Program, wrapper string, fn *ssa.Function, modeIdx int) *ssa.Const {
+	f := p.Func("internal/safehtmlutil", wrapper)
+	if f == nil {
+		return nil
+	}
+	var found *ssa.Const
+	n := 0
+	for _, b := range f.Blocks {
+		for _, in := range b.Instrs {
+			if c, ok := in.(*ssa.Call); ok && staticCallee(c.Common()) == fn && modeIdx < len(c.Common().Args) {
+				n++
+				found, _ = c.Common().Args[modeIdx].(*ssa.Const)
+			}
+		}
+	}
+	if n != 1 {
+		return nil
+	}
+	return found
+}
+
+// evalModeCond evaluates a condition of the processor that depends on the mode parameter only, for the constant
+// mode k: the parameter itself, comparisons with constants, and calls of foldable functions of the module
+// (m.keepsReserved()). Nothing is run: consteval folds the SSA of the helpers.
+func evalModeCond(p *Program, v ssa.Value, mode ssa.Value, k *ssa.Const, depth int) (cval, bool) {
+	if depth > 6 {
+		return cval{}, false
+	}
+	constVal := func(c *ssa.Const) (cval, bool) {
+		if c.Value == nil {
+			return zeroOf(c.Type())
+		}
+		switch c.Value.Kind() {
+		case constant.Bool:
+			return cval{kind: cvBool, b: constant.BoolVal(c.Value)}, true
+		case constant.Int:
+			n, ok := constant.Int64Val(c.Value)
+			return cval{kind: cvInt, i: n}, ok
+		case constant.String:
+			return cval{kind: cvString, s: constant.StringVal(c.Value)}, true
+		}
+		return cval{}, false
+	}
+	if v == mode {
+		return constVal(k)
+	}
+	switch x := v.(type) {
+	case *ssa.Const:
+		return constVal(x)
+	case *ssa.Convert:
+		return evalModeCond(p, x.X, mode, k, depth+1)
+	case *ssa.ChangeType:
+		return evalModeCond(p, x.X, mode, k, depth+1)
+	case *ssa.UnOp:
+		if x.Op == token.NOT {
+			a, ok := evalModeCond(p, x.X, mode, k, depth+1)
+			if ok && a.kind == cvBool {
+				return cval{kind: cvBool, b: !a.b}, true
+			}
+		}
+	case *ssa.BinOp:
+		a, ok1 := evalModeCond(p, x.X, mode, k, depth+1)
+		b, ok2 := evalModeCond(p, x.Y, mode, k, depth+1)
+		if !ok1 || !ok2 || a.kind != b.kind {
+			return cval{}, false
+		}
+		var eq, lt bool
+		switch a.kind {
+		case cvInt:
+			eq, lt = a.i == b.i, a.i < b.i
+		case cvBool:
+			eq = a.b == b.b
+			if x.Op != token.EQL && x.Op != token.NEQ {
+				return cval{}, false
+			}
+		case cvString:
+			eq, lt = a.s == b.s, a.s < b.s
+		default:
+			return cval{}, false
+		}
+		switch x.Op {
+		case token.EQL:
+			return cval{kind: cvBool, b: eq}, true
+		case token.NEQ:
+			return cval{kind: cvBool, b: !eq}, true
+		case token.LSS:
+			return cval{kind: cvBool, b: lt}, true
+		case token.LEQ:
+			return cval{kind: cvBool, b: lt || eq}, true
+		case token.GTR:
+			return cval{kind: cvBool, b: !lt && !eq}, true
+		case token.GEQ:
+			return cval{kind: cvBool, b: !lt}, true
+		}
+	case *ssa.Call:
+		g := staticCallee(x.Common())
+		if g == nil {
+			return cval{}, false
+		}
+		var args []cval
+		for _, a := range x.Common().Args {
+			av, ok := evalModeCond(p, a, mode, k, depth+1)
+			if !ok {
+				return cval{}, false
+			}
+			args = append(args, av)
+		}
+		f := &folder{p: p}
+		res := f.call(g, args)
+		if f.fail != "" {
+			return cval{}, false
+		}
+		return res, true
+	}
+	return cval{}, false
 }
 
 func unreservedSet() *relang.Set {
@@ -49,15 +173,22 @@ func extractURLProcessor(p *Program) (*urlProcTables, error) {
 	}
 	t := &urlProcTables{Fn: fn}
 	var norm, str ssa.Value
-	for _, prm := range fn.Params {
+	for i, prm := range fn.Params {
 		if isStringish(prm.Type()) {
 			str = prm
+			t.StrIdx = i
 		} else {
 			norm = prm
+			t.ModeIdx = i
 		}
 	}
-	if norm == nil || str == nil {
-		return nil, fmt.Errorf("urlProcessor does not have (bool, string) parameters")
+	if norm == nil || str == nil || len(fn.Params) != 2 {
+		return nil, fmt.Errorf("urlProcessor does not have (mode, string) parameters")
+	}
+	t.ModeEscape = modeArgOf(p, "QueryEscapeURL", fn, t.ModeIdx)
+	t.ModeNorm = modeArgOf(p, "NormalizeURL", fn, t.ModeIdx)
+	if t.ModeEscape == nil || t.ModeNorm == nil {
+		return nil, fmt.Errorf("QueryEscapeURL and NormalizeURL do not each call the processor once with a constant mode")
 	}
 	// the byte variable: s[i] in the loop body
 	var bv *ssa.Index
@@ -102,9 +233,12 @@ func extractURLProcessor(p *Program) (*urlProcTables, error) {
 		}
 	}
 	hexFns := map[*ssa.Function]bool{}
+	modeConds := map[string]ssa.Value{}
 	tagOf := func(cond ssa.Value) string {
-		if cond == norm {
-			return "norm"
+		if cond == norm || (dependsOn(cond, norm, 0) && !dependsOn(cond, str, 0)) {
+			tag := "mode#" + cond.Name()
+			modeConds[tag] = cond
+			return tag
 		}
 		if c, ok := cond.(*ssa.Call); ok {
 			if f := staticCallee(c.Common()); f != nil && len(c.Common().Args) == 1 {
@@ -140,6 +274,49 @@ func extractURLProcessor(p *Program) (*urlProcTables, error) {
 		}
 		return "", false
 	}})
+	// conditions on the mode: each is evaluated for the two constants the wrappers pass; a leaf keeps the tag
+	// norm=false / norm=true when it can be reached in one mode only, no tag when in both
+	{
+		var kept []dtLeaf
+		for _, l := range t.Leaves {
+			esc, nrm := true, true
+			var tags []string
+			bad := ""
+			for _, tg := range l.Tags {
+				i := strings.LastIndex(tg, "=")
+				cond, isMode := modeConds[tg[:max(i, 0)]]
+				if i < 0 || !isMode {
+					tags = append(tags, tg)
+					continue
+				}
+				want := tg[i+1:] == "true"
+				ve, ok1 := evalModeCond(p, cond, norm, t.ModeEscape, 0)
+				vn, ok2 := evalModeCond(p, cond, norm, t.ModeNorm, 0)
+				if !ok1 || !ok2 || ve.kind != cvBool || vn.kind != cvBool {
+					bad = "a condition on the mode could not be evaluated for the constants the wrappers pass: " + cond.String()
+					continue
+				}
+				esc = esc && ve.b == want
+				nrm = nrm && vn.b == want
+			}
+			if bad != "" {
+				t.Problems = append(t.Problems, bad)
+				kept = append(kept, l)
+				continue
+			}
+			switch {
+			case esc && !nrm:
+				tags = appendTag(tags, "norm=false")
+			case nrm && !esc:
+				tags = appendTag(tags, "norm=true")
+			case !esc && !nrm:
+				continue // reachable in neither mode
+			}
+			l.Tags = tags
+			kept = append(kept, l)
+		}
+		t.Leaves = kept
+	}
 	// hex helper table
 	if len(hexFns) == 1 {
 		for f := range hexFns {
